@@ -136,7 +136,9 @@ def zorg(zdir: Path, *args: str, config: Optional[Path] = None,
     try:
         if cwd is not None:
             os.chdir(cwd)
-        with contextlib.redirect_stdout(buf):
+        from .driver import watchdog
+
+        with contextlib.redirect_stdout(buf), watchdog():
             try:
                 code = main(argv)
             except SystemExit as e:
